@@ -2,6 +2,7 @@ import Driver.Json
 import Driver.OpsMachines
 import ChipFiring.Model.Machines
 import ChipFiring.Model.Txt
+import ChipFiring.Model.TxtFile
 open Lean CF
 namespace Drv
 
@@ -44,5 +45,70 @@ def opTxtFields (j : Json) : M Json := do
     ("parsed_text", Json.arr ((Txt.parseFields text.toList).map str).toArray),
     ("clean", Json.arr ((names.map fun s => Json.bool (Txt.cleanField s.toList)).toArray)),
     ("stripped", str (Txt.removeAll ((← (← j.getObjVal? "prefix").getStr?).toList) ((← (← j.getObjVal? "pline").getStr?).toList)))]
+
+private def jStr (l : List Char) : Json := Json.str (String.ofList l)
+private def jEdge (e : Txt.Edge) : Json := Json.arr #[jStr e.1, jStr e.2.1, jInt e.2.2]
+
+/-- the file layer of the TXT format, writer side: the text the model writes for the object of the
+    scenario (names in sorted order, canonical edge list, records in sorted order) -/
+def opTxtWrite (j : Json) : M Json := do
+  let n ← getNat j "n"
+  let kind ← (← j.getObjVal? "kind").getStr?
+  let names ← (← getArr j "names").toList.mapM fun e => e.getStr?
+  let nm (v : Fin n) : List Char := ((names[v.1]?).getD "?").toList
+  match ← graphOf j n with
+  | .error _ => pure err
+  | .ok G =>
+    let nameL := (List.finRange n).map nm
+    let edges : List Txt.Edge := G.edgeList.map fun (a, b, k) => (nm a, nm b, (k : Int))
+    let lines ← (match kind with
+      | "graph" => pure (some (Txt.writeGraph nameL edges))
+      | "divisor" => do
+        let D ← vecOf n (← getInts j "deg")
+        pure (some (Txt.writeDivisor nameL edges ((List.finRange n).map fun v => (nm v, D v))))
+      | "orientation" => do
+        match Orient.new G (← pairsOf (getArrD j "orient")) with
+        | .ok o =>
+          let ps := (List.finRange n).flatMap fun u => (List.finRange n).filterMap fun v =>
+            if 0 < G.adj u v ∧ o.st u v = 1 then some (nm u, nm v) else none
+          pure (some (Txt.writeOrientation nameL edges ps))
+        | .error _ => pure none
+      | "script" => do
+        match (scriptNew (← entriesOf (getArrD j "script")) : Except Unit (Vec Int n)) with
+        | .ok s => pure (some (Txt.writeScript nameL edges ((List.finRange n).map fun v => (nm v, s.get v))))
+        | .error _ => pure none
+      | _ => throw s!"txt_write kind {kind}")
+    match lines with
+    | none => pure err
+    | some ls => pure <| Json.mkObj [("text", jStr (Txt.writeText ls)),
+        ("names_ok", Json.bool (nameL.all Txt.nameOK))]
+
+/-- reader side: what `read_txt` hands to the constructors for an arbitrary text, or "NONE" when
+    the reader itself raises -/
+def opTxtRead (j : Json) : M Json := do
+  let kind ← (← j.getObjVal? "kind").getStr?
+  let text := (← (← j.getObjVal? "text").getStr?).toList
+  -- the constructor receives `set(names)`: compared as the sorted list of distinct names
+  let names (l : List Txt.Str) : Json :=
+    Json.arr ((((l.map String.ofList).toArray.qsort (· < ·)).toList.eraseDups).map Json.str).toArray
+  let edges (l : List Txt.Edge) : Json := Json.arr (l.map jEdge).toArray
+  let none' : Json := Json.mkObj [("parsed", Json.str "NONE")]
+  match kind with
+  | "graph" => pure <| match Txt.readGraph text with
+    | some (ns, es) => Json.mkObj [("parsed", Json.mkObj [("names", names ns), ("edges", edges es)])]
+    | none => none'
+  | "divisor" => pure <| match Txt.readDivisor text with
+    | some (ns, es, rs) => Json.mkObj [("parsed", Json.mkObj [("names", names ns), ("edges", edges es),
+        ("recs", Json.arr (rs.map fun r => Json.arr #[jStr r.1, jInt r.2]).toArray)])]
+    | none => none'
+  | "orientation" => pure <| match Txt.readOrientation text with
+    | some (ns, es, rs) => Json.mkObj [("parsed", Json.mkObj [("names", names ns), ("edges", edges es),
+        ("recs", Json.arr (rs.map fun r => Json.arr #[jStr r.1, jStr r.2]).toArray)])]
+    | none => none'
+  | "script" => pure <| match Txt.readScript text with
+    | some (ns, es, rs) => Json.mkObj [("parsed", Json.mkObj [("names", names ns), ("edges", edges es),
+        ("recs", Json.arr (rs.map fun r => Json.arr #[jStr r.1, jInt r.2]).toArray)])]
+    | none => none'
+  | _ => throw s!"txt_read kind {kind}"
 
 end Drv
